@@ -8,6 +8,10 @@ import pipeline
 import cc
 
 ASSUME = [
+    "liveness (C01, C03 design checks ControlConn_Live_*): under weak fairness of Tor's own steps - it goes on sending the lines of what "
+    "it has begun and answers the command that is written - every command ever submitted is eventually resolved and the queue drains "
+    "again and again (TLC, small constants; the historic stuck-queue mechanism must yield a counterexample); this is a property of the "
+    "specified mechanism - executions are finite, so conformance of the code is checked step by step only",
     "in every third execution the caller of a plain command attaches its callbacks only after the line that completes the reply has "
     "been processed (submit first, look at the outcome later)",
     "Twisted's LineOnlyReceiver splits the byte stream into lines; the model is line-level and the harness "
@@ -21,14 +25,14 @@ ASSUME = [
 SEGS_QUICK = [("whole",), ("bytes",), ("crlf",), ("cut", 3), ("cut", 5), ("early",), ("run",), ("rand",)]
 
 MC = {
-    ("C01", "quick"): ["MC_C01_quick", "MC_C01_reent"],
-    ("C01", "thorough"): ["MC_C01_quick", "MC_C01_reent", "MC_C01_thorough"],
+    ("C01", "quick"): ["MC_C01_quick", "MC_C01_reent", "Live_quick"],
+    ("C01", "thorough"): ["MC_C01_quick", "MC_C01_reent", "Live_quick", "MC_C01_thorough"],
     ("C02", "quick"): ["MC_C02_quick", "MC_C02_other", "MC_C02_adder", "MC_C02_killer", "MC_C02_empty"],
     ("C02", "thorough"): ["MC_C02_quick", "MC_C02_other", "MC_C02_adder", "MC_C02_killer", "MC_C02_empty", "MC_C02_names", "MC_C02_thorough"],
-    ("C03", "quick"): ["MC_C03_quick", "MC_C03_closer"],
-    ("C03", "thorough"): ["MC_C03_quick", "MC_C03_closer", "MC_C03_thorough"],
+    ("C03", "quick"): ["MC_C03_quick", "MC_C03_closer", "Live_closer"],
+    ("C03", "thorough"): ["MC_C03_quick", "MC_C03_closer", "Live_closer", "MC_C03_thorough"],
 }
-DEVS = {"C01": [], "C02": ["Dev_c02_cb_leak", "Dev_c02_skip"], "C03": ["Dev_c03_stuck"]}
+DEVS = {"C01": [], "C02": ["Dev_c02_cb_leak", "Dev_c02_skip"], "C03": ["Dev_c03_stuck", "Live_stuck"]}
 PROBES = {"C01": [], "C02": ["Probe_ProbeEventDuringCb", "Probe_ProbeSelfRemoval"], "C03": ["Probe_ProbeLossMidBlock"]}
 
 
